@@ -112,7 +112,9 @@ theorem decRangeProof_enc (p : RangeProof) (h : p.WF) (rest : Bytes) :
 
 theorem decOutput_enc (o : Output) (h : o.WF) (rest : Bytes) :
     decOutput (encOutput o ++ rest) = .ok (o, rest) := by
-  simp only [decOutput, encOutput, List.append_assoc, decOutputId_enc _ h.1, decRangeProof_enc _ h.2,
-    andThen_ok]
+  -- (`rw`, not `simp`: unifying `andThen_ok` against a not-yet-rewritten decoder call makes `simp`
+  -- evaluate the decoder symbolically)
+  rw [decOutput, encOutput, List.append_assoc, decOutputId_enc _ h.1, andThen_ok,
+    decRangeProof_enc _ h.2, andThen_ok]
 
 end GV.Ser
